@@ -19,7 +19,7 @@ import (
 )
 
 func TestMain(m *testing.M) {
-	vh.Rule("fault enumeration: responses from the C02 grammar (<= 400 bytes, cut into 1..5 packets) are delivered through the real reader goroutine over a scripted transport that starts failing after byte offset k of the TCP stream, for EVERY k in 0..len (exhaustive per response), x failure kind {EOF forever, connection reset error, timeout-style error} x PacketReadTimeout {0 s, 1 s (sampled in quick)}; plus write-side faults (Write returns an error or a short count at packet j of a multi-packet request). Oracle: the consumer receives exactly the packages that lie entirely inside the completely received packets (a prefix of the delivery model, values equal), a synthetic final DONE only if the EOM packet arrived completely, then an error within PacketReadTimeout + 2 s; NextPackage never blocks beyond that; failing writes make SendPackage return an error without panic. Non-trivial: 0 < k < len and k falls inside a packet (header or body); distinct by (response, packetisation, k, kind, timeout)")
+	vh.Rule("fault enumeration: responses from the C02 grammar (<= 400 bytes, cut into 1..5 packets) are delivered through the real reader goroutine over a scripted transport that starts failing after byte offset k of the TCP stream, for EVERY k in 0..len (exhaustive per response), x failure kind {EOF forever, EOF together with the last bytes, an error wrapping io.EOF (a tunnelled transport), connection reset error, timeout-style error} x packet type {RESPONSE, NORMAL} x PacketReadTimeout {0 s, 1 s (sampled in quick)}; plus write-side faults (Write returns an error or a short count at packet j of a multi-packet request). Oracle: the consumer receives exactly the packages that lie entirely inside the completely received packets (a prefix of the delivery model, values equal), a synthetic final DONE only if the EOM packet arrived completely, then an error within PacketReadTimeout + 2 s; NextPackage never blocks beyond that; failing writes make SendPackage return an error without panic. Non-trivial: 0 < k < len and k falls inside a packet (header or body); distinct by (response, packetisation, k, kind, timeout)")
 	vh.Assume("a silent stall is not a transport failure (no deadline is ever set on the socket) and is out of scope; packages are collected after the failure has been reported (the race between a queued package and a queued error inside NextPackage's select is schedule-dependent and documented by the library)")
 	vh.Main(m, "C14")
 }
@@ -36,6 +36,9 @@ type c14Case struct {
 	// transport fails its n-th write (the server stopped reading); the response to what it
 	// did receive arrives afterwards
 	WriteFault int `json:"request_write_fails_at,omitempty"`
+	// Normal: the packets carry the type NORMAL (15), the one used for ordinary traffic on
+	// logical channels, instead of RESPONSE (4)
+	Normal bool `json:"packet_type_normal,omitempty"`
 }
 
 func failErr(kind string) error {
@@ -44,8 +47,14 @@ func failErr(kind string) error {
 		return io.EOF
 	case "reset":
 		return peer.ErrReset
-	case "eof-with-data":
+	case "eof-with-data", "wrapped-eof-with-data":
+		if kind == "wrapped-eof-with-data" {
+			return fmt.Errorf("tunnel: remote end: %w", io.EOF)
+		}
 		return io.EOF
+	case "wrapped-eof":
+		// a transport wrapped by a tunnel / proxy / metrics layer reports the end like this
+		return fmt.Errorf("tunnel: remote end: %w", io.EOF)
 	}
 	return peer.ErrTimeout
 }
@@ -84,7 +93,11 @@ func runCaseOnce(c c14Case) (f *vh.Failure) {
 	if err != nil {
 		vh.HarnessBug("encode: %v", err)
 	}
-	packets := rc.Packetise(stream, c.Cuts, rc.BufResponse, 0)
+	ptype := byte(rc.BufResponse)
+	if c.Normal {
+		ptype = rc.BufNormal
+	}
+	packets := rc.Packetise(stream, c.Cuts, ptype, 0)
 	var tcp []byte
 	var ends []int  // TCP offset at which each packet is complete
 	var avail []int // response bytes available once packet i is complete
@@ -131,6 +144,9 @@ func runCaseOnce(c c14Case) (f *vh.Failure) {
 
 	if c.Poll {
 		where += ", polling consumer"
+	}
+	if c.Normal {
+		where += ", packets of type NORMAL"
 	}
 	if c.WriteFault > 0 {
 		where += fmt.Sprintf(", after a request whose write %d failed", c.WriteFault)
@@ -179,7 +195,7 @@ func runCaseOnce(c c14Case) (f *vh.Failure) {
 		vh.Label("request-write-failed-before-response")
 	}
 	start := time.Now()
-	if c.Kind == "eof-with-data" && c.K > 0 {
+	if (c.Kind == "eof-with-data" || c.Kind == "wrapped-eof-with-data") && c.K > 0 {
 		// the read that hands out byte K reports io.EOF along with the data (io.Reader allows it)
 		pipe.EOFWithLastBytes(c.K)
 	}
@@ -338,9 +354,9 @@ func TestEveryOffset(t *testing.T) {
 		stream, _, _, _ := rc.EncodeStream(ps)
 		total := len(stream) + 8*(len(cuts)+1)
 		for k := 0; k <= total; k++ {
-			for _, kind := range []string{"eof", "reset", "timeout", "eof-with-data"} {
+			for _, kind := range []string{"eof", "reset", "timeout", "eof-with-data", "wrapped-eof", "wrapped-eof-with-data"} {
 				n++
-				cs := c14Case{Pkgs: ps, Cuts: cuts, K: k, Kind: kind, Timeout: 0, Poll: n%3 == 0}
+				cs := c14Case{Pkgs: ps, Cuts: cuts, K: k, Kind: kind, Timeout: 0, Poll: n%3 == 0, Normal: (n/6+i)%2 == 1}
 				if n%5 == 0 {
 					cs.WriteFault = 1 + n/5%3
 				}
@@ -361,7 +377,7 @@ func TestRandomFaults(t *testing.T) {
 		ps, cuts := genResp(rt)
 		stream, _, _, _ := rc.EncodeStream(ps)
 		total := len(stream) + 8*(len(cuts)+1)
-		c := c14Case{Pkgs: ps, Cuts: cuts, K: rapid.IntRange(0, total).Draw(rt, "k"), Kind: rapid.SampledFrom([]string{"eof", "reset", "timeout", "eof-with-data"}).Draw(rt, "kind"), Timeout: 0, Poll: rapid.Bool().Draw(rt, "poll")}
+		c := c14Case{Pkgs: ps, Cuts: cuts, K: rapid.IntRange(0, total).Draw(rt, "k"), Kind: rapid.SampledFrom([]string{"eof", "reset", "timeout", "eof-with-data", "wrapped-eof", "wrapped-eof-with-data"}).Draw(rt, "kind"), Timeout: 0, Poll: rapid.Bool().Draw(rt, "poll"), Normal: rapid.Bool().Draw(rt, "normal")}
 		if rapid.IntRange(0, 3).Draw(rt, "writefault") == 0 {
 			c.WriteFault = rapid.IntRange(1, 3).Draw(rt, "failat")
 		}
@@ -376,7 +392,7 @@ func TestWithReadTimeout(t *testing.T) {
 		ps, cuts := genResp(rt)
 		stream, _, _, _ := rc.EncodeStream(ps)
 		total := len(stream) + 8*(len(cuts)+1)
-		return c14Case{Pkgs: ps, Cuts: cuts, K: rapid.IntRange(0, total).Draw(rt, "k"), Kind: rapid.SampledFrom([]string{"eof", "eof", "reset", "timeout"}).Draw(rt, "kind"), Timeout: 1}
+		return c14Case{Pkgs: ps, Cuts: cuts, K: rapid.IntRange(0, total).Draw(rt, "k"), Kind: rapid.SampledFrom([]string{"eof", "eof", "reset", "timeout", "wrapped-eof"}).Draw(rt, "kind"), Timeout: 1, Normal: rapid.Bool().Draw(rt, "normal")}
 	}
 	vh.Check(t, "TestWithReadTimeout", vh.N(12, 300), gen, runCase)
 }
